@@ -45,19 +45,18 @@ Definition go_list (ev : evaluator) :=
     end.
 
 Definition go_dict (ev : evaluator) :=
-  fix go (s : state) (l : list (value * value)) : state * res (list (value * value)) :=
+  fix go (s : state) (l : list (value * value)) (y : list (value * value)) : state * res (list (value * value)) :=
     match l with
-    | [] => (s, Ok [])
+    | [] => (s, Ok y)
     | (k, x) :: t =>
-        let '(s0, rk) := ev s k in
-        match rk with
+        let '(s0, rx) := ev s x in
+        match rx with
         | Raise e => (s0, Raise e)
-        | Ok k' =>
-            let '(s1, rx) := ev s0 x in
-            match rx with
+        | Ok x' =>
+            let '(s1, rk) := ev s0 k in
+            match rk with
             | Raise e => (s1, Raise e)
-            | Ok x' => let '(s2, rt) := go s1 t in
-                       match rt with Raise e => (s2, Raise e) | Ok t' => (s2, Ok ((k', x') :: t')) end
+            | Ok k' => if py_hashable k' then go s1 t (vdict_set k' x' y) else (s1, Raise "TypeError")
             end
         end
     end.
@@ -91,7 +90,7 @@ Lemma eval_VTuple : forall f s l, eval (S f) s (VTuple l) =
   (s', match r with Ok l' => Ok (VTuple l') | Raise e => Raise e end).
 Proof. reflexivity. Qed.
 Lemma eval_VDict : forall f s l, eval (S f) s (VDict l) =
-  let '(s', r) := go_dict (eval f) s l in
+  let '(s', r) := go_dict (eval f) s l [] in
   (s', match r with Ok l' => Ok (VDict l') | Raise e => Raise e end).
 Proof. reflexivity. Qed.
 Lemma eval_VRef_true : forall f s sc sel, eval (S f) s (VRef sc sel true) = call_handle f s sc sel [] [].
@@ -185,16 +184,15 @@ Lemma go_list_cons : forall ev s x t, go_list ev s (x :: t) =
              match rt with Raise e => (s2, Raise e) | Ok t' => (s2, Ok (x' :: t')) end
   end.
 Proof. reflexivity. Qed.
-Lemma go_dict_cons : forall ev s k x t, go_dict ev s ((k, x) :: t) =
-  let '(s0, rk) := ev s k in
-  match rk with
+Lemma go_dict_cons : forall ev s k x t y, go_dict ev s ((k, x) :: t) y =
+  let '(s0, rx) := ev s x in
+  match rx with
   | Raise e => (s0, Raise e)
-  | Ok k' =>
-      let '(s1, rx) := ev s0 x in
-      match rx with
+  | Ok x' =>
+      let '(s1, rk) := ev s0 k in
+      match rk with
       | Raise e => (s1, Raise e)
-      | Ok x' => let '(s2, rt) := go_dict ev s1 t in
-                 match rt with Raise e => (s2, Raise e) | Ok t' => (s2, Ok ((k', x') :: t')) end
+      | Ok k' => if py_hashable k' then go_dict ev s1 t (vdict_set k' x' y) else (s1, Raise "TypeError")
       end
   end.
 Proof. reflexivity. Qed.
@@ -222,17 +220,17 @@ Proof.
 Qed.
 
 Lemma go_dict_frame : forall ev, ev_frame ev ->
-  forall l s s' r, go_dict ev s l = (s', r) -> same_static s s'.
+  forall l s y s' r, go_dict ev s l y = (s', r) -> same_static s s'.
 Proof.
-  intros ev Hev l. induction l as [|[k x] t IH]; intros s s' r H.
+  intros ev Hev l. induction l as [|[k x] t IH]; intros s y s' r H.
   - simpl in H. inversion H; subst. apply ss_refl.
-  - rewrite go_dict_cons in H. destruct (ev s k) as [s0 rk] eqn:E0. pose proof (Hev _ _ _ _ E0) as F0.
-    destruct rk as [k'|e]; [|inversion H; subst; exact F0].
-    destruct (ev s0 x) as [s1 rx] eqn:E1. pose proof (Hev _ _ _ _ E1) as F1.
-    destruct rx as [x'|e]; [|inversion H; subst; eapply ss_trans; eassumption].
-    destruct (go_dict ev s1 t) as [s2 rt] eqn:E2.
-    pose proof (IH _ _ _ E2) as F2.
-    destruct rt; inversion H; subst; eapply ss_trans; try eassumption; eapply ss_trans; eassumption.
+  - rewrite go_dict_cons in H. destruct (ev s x) as [s0 rx] eqn:E0. pose proof (Hev _ _ _ _ E0) as F0.
+    destruct rx as [x'|e]; [|inversion H; subst; exact F0].
+    destruct (ev s0 k) as [s1 rk] eqn:E1. pose proof (Hev _ _ _ _ E1) as F1.
+    destruct rk as [k'|e]; [|inversion H; subst; eapply ss_trans; eassumption].
+    destruct (py_hashable k'); [|inversion H; subst; eapply ss_trans; eassumption].
+    pose proof (IH _ _ _ _ H) as F2.
+    eapply ss_trans; [exact F0|]. eapply ss_trans; eassumption.
 Qed.
 
 Lemma go_kw_frame : forall ev, ev_frame ev ->
@@ -285,7 +283,7 @@ Proof.
         inversion H; subst. eapply go_list_frame; eassumption.
       * rewrite eval_VTuple in H. destruct (go_list (eval f) s l) as [s1 r1] eqn:E.
         inversion H; subst. eapply go_list_frame; eassumption.
-      * rewrite eval_VDict in H. destruct (go_dict (eval f) s l) as [s1 r1] eqn:E.
+      * rewrite eval_VDict in H. destruct (go_dict (eval f) s l []) as [s1 r1] eqn:E.
         inversion H; subst. eapply go_dict_frame; eassumption.
       * destruct ev.
         -- rewrite eval_VRef_true in H. eapply IHh; eassumption.
@@ -314,3 +312,50 @@ Theorem call_handle_frame : forall fuel s sc sel args kw s' r,
 Proof. intro fuel. apply (frame_all fuel). Qed.
 Theorem call_frame : forall fuel s sel args kw s' r, call fuel s sel args kw = (s', r) -> same_static s s'.
 Proof. intro fuel. apply (frame_all fuel). Qed.
+
+(* ================================================================== *)
+(* a dict item: the value before the key; equal keys merge             *)
+(* ================================================================== *)
+(* copy._deepcopy_dict runs  y[deepcopy(key)] = deepcopy(value)  per item: the right-hand side first *)
+Lemma eval_VDict_value_raises : forall f s k x t s0 e,
+  eval f s x = (s0, Raise e) -> eval (S f) s (VDict ((k, x) :: t)) = (s0, Raise e).
+Proof. intros f s k x t s0 e H. rewrite eval_VDict, go_dict_cons, H. reflexivity. Qed.
+
+Definition probe1 (sel : string) : cfgable :=
+  {| c_sel := sel; c_kind := KProbe;
+     c_sig := {| s_args := ["a"]; s_defaults := [VNone]; s_varargs := false; s_kwonly := []; s_varkw := false |};
+     c_allow := []; c_deny := []; c_method := false |}.
+Definition log_of (s : state) : list (string * pdict * Z) := map (fun c => (cr_sel c, cr_env c, cr_n c)) (rev (calllog s)).
+
+(* k = @g() ; f.a = {%k: @h()} : h (under the key) runs BEFORE g (the key).
+   k = @g() ; f.a = {%k: %unbound} : the value raises first, g never runs. *)
+Lemma dict_item_value_before_key :
+  let regs := [probe1 "m.f"; probe1 "n.g"; probe1 "n.h"] in
+  let s1 := run_top 50 (setup regs) [OParse "k" (VRef [] "g" true); OParse "f.a" (VDict [(VMacro "k", VRef [] "h" true)])] in
+  let s2 := run_top 50 (setup regs) [OParse "k" (VRef [] "g" true); OParse "f.a" (VDict [(VMacro "k", VMacro "unbound")])] in
+  (snd (call 50 s1 "m.f" [] []) = Ok (VRet "m.f" 2) /\
+   log_of (fst (call 50 s1 "m.f" [] [])) =
+     [("n.h", [("a", VNone)], 0%Z); ("n.g", [("a", VNone)], 1%Z);
+      ("m.f", [("a", VDict [(VRet "n.g" 1, VRet "n.h" 0)])], 2%Z)]) /\
+  (snd (call 50 s2 "m.f" [] []) = Raise "TypeError" /\ log_of (fst (call 50 s2 "m.f" [] [])) = []).
+Proof. vm_compute. repeat split; reflexivity. Qed.
+
+(* y[k'] = x' : keys that are equal after evaluation (1 == True) are ONE entry, which keeps the earlier key and
+   place and takes the later value; a key that evaluates to a list raises TypeError, after the item's value has run
+   and before the next item is touched *)
+Lemma dict_equal_keys_merge :
+  let regs := [probe1 "m.f"; probe1 "n.g"; probe1 "n.h"] in
+  let s1 := run_top 50 (setup regs)
+     [OParse "k1" (VInt 1); OParse "k2" (VBool true);
+      OParse "f.a" (VDict [(VMacro "k1", VStr "a"); (VInt 2, VStr "b"); (VMacro "k2", VStr "c")])] in
+  let s2 := run_top 50 (setup regs)
+     [OParse "kl" (VList [VInt 1]);
+      OParse "f.a" (VDict [(VInt 1, VInt 2); (VMacro "kl", VRef [] "g" true); (VInt 3, VRef [] "h" true)])] in
+  log_of (fst (call 50 s1 "m.f" [] [])) = [("m.f", [("a", VDict [(VInt 1, VStr "c"); (VInt 2, VStr "b")])], 0%Z)] /\
+  (snd (call 50 s2 "m.f" [] []) = Raise "TypeError" /\
+   log_of (fst (call 50 s2 "m.f" [] [])) = [("n.g", [("a", VNone)], 0%Z)]).
+Proof. vm_compute. repeat split; reflexivity. Qed.
+
+Print Assumptions eval_VDict_value_raises.
+Print Assumptions dict_item_value_before_key.
+Print Assumptions dict_equal_keys_merge.
